@@ -1592,70 +1592,53 @@ def check_rshift(ctx, prog):
 
 def check_rinline(ctx, prog):
     """Every place in codegen that decides 'this state is inlined into its single predecessor' uses
-    the same condition: `predecessors.len() == 1` (plus `!initial` where arms are emitted)."""
+    the same condition: `predecessors.len() == 1` (plus `!initial` where arms are emitted). A site is
+    a branch whose tested value is, as a def-use term, `len(<state>.predecessors) == 1` - wherever
+    the comparison itself was written (in place, in a helper, in a closure)."""
+    from .rules_thompson import Sym
+    from .inline import is_anchor
     lex = prog.crate(LEX)
     sites = []
-    from .inline import is_anchor
+    st_adt = lex.adt("dfa::State")
+    pred_idx = None
+    if st_adt:
+        fields = [f["name"] for f in st_adt["variants"][0]["fields"]]
+        pred_idx = fields.index("predecessors") if "predecessors" in fields else None
+    if not ctx.ob("R-INLINE", "dfa::State has a `predecessors` field", pred_idx is not None,
+                  key="R-INLINE:anchor"):
+        return
+
+    def is_test(t):
+        if not (isinstance(t, tuple) and len(t) == 4 and t[0] == "bin" and t[1] == "Eq"):
+            return False
+        sides = [t[2], t[3]]
+        one = [x for x in sides if x == ("const", 1)]
+        ln = [x for x in sides if isinstance(x, tuple) and len(x) == 4 and x[0] == "call"
+              and x[1].endswith("HashSet::len")]
+        if not (one and ln):
+            return False
+        recv = ln[0][3][0]
+        return term_has(recv, lambda y: isinstance(y, tuple) and len(y) == 3 and y[0] == "path"
+                        and y[2] and y[2][-1] == ("f", pred_idx))
     for b in lex.ibodies():
         name = norm_path(b["path"])
-        if not name.startswith("dfa::codegen"):
-            continue
-        if not is_anchor(name):
-            continue        # a helper: analysed where it is inlined
+        if not name.startswith("dfa::codegen") or not is_anchor(name):
+            continue            # helpers are analysed where they are inlined
         blocks = b["mir"]["blocks"]
-        dom = None
-        for bi, c, t in cfg.calls_in(blocks):
-            if c != "std::collections::HashSet::len":
+        sym = Sym(b, {}, crate=lex)
+        for bi, bb in enumerate(blocks):
+            if bb["cleanup"] or bb["term"]["k"] != "switch":
                 continue
-            # receiver must be a `predecessors` field
-            recv = t["args"][0].get("move") or t["args"][0].get("copy")
-            is_pred = False
-            if recv is not None:
-                for st in blocks[bi]["st"]:
-                    if "lhs" in st and st["lhs"]["l"] == recv["l"] and st["rv"]["k"] == "ref":
-                        if any(isinstance(e, dict) and e.get("f", "").endswith(".predecessors")
-                               for e in st["rv"]["p"]["p"]):
-                            is_pred = True
-            if not is_pred:
-                continue
-            # Eq(len, 1) then switch
-            nxt = t["t"]
-            bb = blocks[nxt]
-            eq = None
-            for st in bb["st"]:
-                rv = st.get("rv")
-                if rv and rv["k"] == "bin" and rv["op"] == "Eq":
-                    consts = [o.get("int") for o in (rv["a"], rv["b"]) if "int" in o]
-                    eq = consts == [1]
             sw = bb["term"]
-            if not eq or sw["k"] != "switch":
-                sites.append((name, nxt, "not `== 1`", None))
+            t = sym.operand(sw["d"])
+            alts = list(t[1]) if t[0] == "phi" else [t]
+            if not any(is_test(x) for x in alts):
+                continue
+            if len(alts) != 1:
+                sites.append((name, bi, "the tested value is not only `predecessors.len() == 1`", None))
                 continue
             true_tgt = sw["else"] if sw["arms"] and sw["arms"][0][0] == 0 else None
-            # what other conditions are tested on the true side before the decision is used?
-            extra = extra_conditions(blocks, true_tgt)
-            sites.append((name, nxt, "ok", extra))
-    # a helper returning bool that contains the test (e.g. `fn is_inlined(state) -> bool`): its call
-    # sites are the deciding sites
-    helpers = set()
-    for name, bi, status, extra in sites:
-        hb = lex.body(name)
-        if hb is not None and hb.get("sig_out") == "bool":
-            helpers.add(name)
-    if helpers:
-        sites = [x for x in sites if x[0] not in helpers]
-        for b in lex.bodies:
-            name = norm_path(b["path"])
-            if not name.startswith("dfa::codegen") or name in helpers:
-                continue
-            blocks = b["mir"]["blocks"]
-            for bi, c, t in cfg.calls_in(blocks):
-                if c in helpers:
-                    sw = blocks[t["t"]]["term"]
-                    if sw["k"] == "switch" and sw["arms"] and sw["arms"][0][0] == 0:
-                        sites.append((name, t["t"], "ok", extra_conditions(blocks, sw["else"])))
-                    else:
-                        sites.append((name, t["t"], "ok", set()))
+            sites.append((name, bi, "ok", extra_conditions(blocks, true_tgt)))
     for name, bi, status, extra in sites:
         allowed_extra = {"initial"} if name == "dfa::codegen::generate_state_arms" else set()
         ok = status == "ok" and set(extra or ()) <= allowed_extra
